@@ -8,7 +8,9 @@ prints reflect.DeepEqual(original, evaluated) in the same place). No `spec=` is 
 decided on the implementation's own answer (`oracle=` of compare_corpus).
 The lexical layer is `GoString.valLex` (leaf text = the value; reading back maps -0.0 to +0.0).
 Answers: `ill-typed`, `non-finite` (outside the property's quantifier), `unsupported` (the generator
-emits nothing for the type), `model=panic` (the text does not compile / panics).
+emits nothing for the type), `model=compile-error` (`Res.panic`: the text does not compile — e.g. it assigns an
+unexported field — or panics). `gostringx` = the same op on a type outside the property's quantifier (a struct of the
+derive package with unexported fields): correspondence only.
 -/
 import GoderiveModel.U.Wire
 import GoderiveModel.U.Canon
@@ -117,7 +119,7 @@ end
 def run (s : DState) (name : String) (args : List SExp) : Option String :=
   let env := s.env
   match name, args with
-  | "gostring", [t, x] =>
+  | "gostring", [t, x] | "gostringx", [t, x] =>
     some <| match lookupTy s t, parseVal x with
     | some T, some v =>
       if !(hasType env T v) then "ill-typed"
@@ -127,7 +129,7 @@ def run (s : DState) (name : String) (args : List SExp) : Option String :=
       else
         let text := GoString.goString env GoString.valLex T v
         match GoString.evalG env GoString.valLex text (maxAddr v + 1) with
-        | .panic => "model=panic"
+        | .panic => "model=compile-error"
         | .ok (v', _) =>
           let e := Spec.structEq env T v v'
           let fresh := (addrs v').all fun a => a > maxAddr v
